@@ -48,6 +48,12 @@ def register (st : PySt) (cd : Cd) : PySt := { st with inflight := st.inflight +
 def codeContinue : Str := "Continue".toList
 def codeOk : Str := "Ok".toList
 
+def codeKey : Str := "code".toList
+
+/-- `dict(properties["UserProperty"])["code"]`: the last pair with that key, `KeyError` otherwise -/
+def userCode (ups : List (Str × Str)) : Option Str :=
+  (ups.reverse.find? (·.1 = codeKey)).map (·.2)
+
 /-- `_dispatch(message)` -/
 def dispatch (respTopic : Str) (st : PySt) (m : Msg) : PySt :=
   if m.topic ≠ respTopic then st else           -- "unexpected topic"
